@@ -11,4 +11,17 @@ theorem change_output_tie : spendChangeOutputArgs = ["*a.AssetId", "res.change",
 theorem fee_tie : feeConditions =
     ["input.AssetID() == *consensus.BTMAssetID", "*output.AssetId == *consensus.BTMAssetID", "inputBTM > outputBTM"] := by decide
 
+
+/-- both materialize methods collect signatures with the loop "slot by slot, skip empty slots,
+    stop after Quorum non-empty ones" and call nothing but len/append (+ the length prefix of
+    SignatureWitness) — model: `materializeSigs` -/
+theorem materialize_loop_tie :
+    rawTxSigWitnessMaterialize =
+      ["for i := 0; i < len(sw.Sigs) && nsigs < sw.Quorum; i++", "call len", "i++",
+       "if len(sw.Sigs[i]) > 0", "call len", "call append", "nsigs++"] ∧
+    sigWitnessMaterialize =
+      ["call append", "call vm.Uint64Bytes", "call uint64", "call len",
+       "for i := 0; i < len(sw.Sigs) && nsigs < sw.Quorum; i++", "call len", "i++",
+       "if len(sw.Sigs[i]) > 0", "call len", "call append", "nsigs++", "call append"] := by decide
+
 end BytomModel.Ties.C27
